@@ -14,40 +14,53 @@ META = dict(
     rule=("cases: (A) every ordered pair of binary sequences of equal length "
           "1..L (L=7 quick, 9 thorough) with index time stamps at 3 ES and 5 "
           "ECA (taumax,lag) settings and with one fixed irregular dyadic time "
-          "axis at 2 ES / 2 ECA settings; (B) seeded random binary event "
-          "matrices T<=40, N<=5, 0..8 events per series (forced end events, "
-          "copied = simultaneous events, periodic series), index or irregular "
-          "increasing dyadic time stamps, taumax in {inf,0,.5,1,2,3,5}, lag in "
-          "{0,.5,1,2}: static ES/ECA on every column pair, exchange, common "
-          "time shift, time rescaling (ES, taumax=inf), event_series_analysis "
-          "under all 6 (ES) / 4x3 (ECA) symmetrisation x window options, "
-          "agreement of the instance ECA windows with the static function; "
-          "(C) make_event_matrix / EventSeries(threshold_method=..) on integer"
-          " and dyadic data with ties for scalar / per-variable / missing "
-          "methods, values, types; (D) EventSeriesClimateNetwork similarity "
-          "matrix. Oracle: loop evaluation of the counting formulas in "
-          "pvm/ref/events.py; ES compared to 1e-9, ECA rates (float32 in the "
-          "library) to 1e-6. Undefined values (no events / fewer than 3 events"
-          " for ES / every event excluded by the boundary rule) only must not "
-          "be finite outside [0,1]; exceptions there are counted, not "
-          "reported. non-trivial = distinct (event times x, event times y, "
-          "taumax, lag, measure) whose reference value is defined with at "
-          "least one non-zero output (ES) / at least one rate >0 and one <1 "
-          "(ECA); for thresholding: distinct (data, spec) with both events "
-          "and non-events."),
-    floors={"quick": {"es_defined": 10000, "eca_defined": 20000,
-                      "es_doublecount": 300, "es_simultaneous": 1000,
-                      "eca_extra_excluded": 3000, "exchange_checked": 5000,
-                      "shift_checked": 1000, "rescale_checked": 100,
-                      "matrix_es": 600, "matrix_eca": 800,
-                      "mem_compared": 150, "climnet_compared": 10},
-            "thorough": {"es_defined": 200000, "eca_defined": 400000,
-                         "es_doublecount": 5000, "es_simultaneous": 20000,
-                         "eca_extra_excluded": 50000,
-                         "exchange_checked": 100000,
-                         "shift_checked": 10000, "rescale_checked": 1000,
-                         "matrix_es": 6000, "matrix_eca": 8000,
-                         "mem_compared": 1500, "climnet_compared": 50}},
+          "axis at 2 ES / 2 ECA settings (exchange on every pair x<y, shift/"
+          "rescale on every 23rd); (B) seeded random binary event matrices "
+          "T<=40, N<=5, 0..8 events per series (forced end events, copied = "
+          "simultaneous events, periodic series, shifted copies; dtypes int/"
+          "float/int8/bool), index or irregular increasing dyadic time "
+          "stamps, taumax in {inf,0,.5,1,2,3,5}, lag in {0,.5,1,2} (integer "
+          "values also passed as int): static ES/ECA on every column pair vs "
+          "the reference, exchange, common time shift, time rescaling (ES, "
+          "taumax=inf); event_series_analysis('ES') under all 6 "
+          "symmetrisations = the symmetrisation table applied to the static "
+          "pairwise library values; event_series_analysis('ECA') 'directed' "
+          "for the 3 window types vs the reference and mean/max/min = table "
+          "applied to the library's directed matrix; advanced/retarded "
+          "instance windows = static precursor/trigger rates; the first "
+          "1200 (quick) / 8000 (thorough) matrices are not time limited; (C) "
+          "make_event_matrix / EventSeries(threshold_method=..) on integer "
+          "and dyadic data with ties on the threshold for scalar / "
+          "per-variable / missing methods, values, types; (D) "
+          "EventSeriesClimateNetwork.similarity_measure() = |matrix of the "
+          "EventSeries instance| in float32. Oracle: loop evaluation of the "
+          "counting formulas in pvm/ref/events.py; ES compared to 1e-9, ECA "
+          "rates (float32 in the library) to 1e-6; every directed value and "
+          "the total ES strength Q(x|y)+Q(y|x) must lie in [0,1]. Undefined "
+          "values (no events / fewer than 3 events for ES / every event "
+          "excluded by the ECA boundary rule) only must not be finite outside"
+          " [0,1]; exceptions there are counted, not reported. non-trivial ="
+          " distinct (event times x, event times y, taumax, lag, measure) "
+          "whose reference value is defined with at least one non-zero output"
+          " (ES) / at least one rate >0 and one <1 (ECA); for thresholding: "
+          "distinct (data, spec) with both events and non-events."),
+    floors={"quick": {"es_defined": 20000, "eca_defined": 50000,
+                      "es_doublecount": 400, "es_simultaneous": 10000,
+                      "eca_extra_excluded": 30000, "exchange_checked": 40000,
+                      "shift_checked": 8000, "rescale_checked": 1000,
+                      "matrix_es": 3000, "matrix_eca": 5000,
+                      "instance_vs_static": 400, "mem_compared": 150,
+                      "mem_tie_on_threshold": 100, "climnet_compared": 10,
+                      "climnet_nonzero": 8},
+            "thorough": {"es_defined": 400000, "eca_defined": 800000,
+                         "es_doublecount": 8000, "es_simultaneous": 200000,
+                         "eca_extra_excluded": 500000,
+                         "exchange_checked": 600000,
+                         "shift_checked": 60000, "rescale_checked": 8000,
+                         "matrix_es": 12000, "matrix_eca": 18000,
+                         "instance_vs_static": 1800, "mem_compared": 1500,
+                         "mem_tie_on_threshold": 1000,
+                         "climnet_compared": 50, "climnet_nonzero": 40}},
     exhaustive_subspaces={
         "quick": ["ordered pairs of binary sequences of equal length 1..7 "
                   "(21844 pairs) x 5 ES and 7 ECA parameter settings"],
@@ -66,13 +79,20 @@ META = dict(
         "the definition",
         "np.quantile / np.median define the thresholds of make_event_matrix",
         "lags are non-negative for ECA; negative lags are used for ES only "
-        "in the exchange relation ES(y,x,-lag)=swap ES(x,y,lag)"],
+        "in the exchange relation ES(y,x,-lag)=swap ES(x,y,lag)",
+        "ClimateNetwork stores |similarity| as float32 (sign of 'antisym' "
+        "is lost there by that class's convention); the diagonal of the "
+        "analysis matrix is not examined (not defined by the docs)",
+        "an exception for a series without events (ECA: IndexError) is "
+        "treated as 'undefined', not as a violation"],
     technique="reference model (counting loops) + metamorphic relations",
     level_text=("exhaustive agreement with the counting formulas on all pairs"
                 " of short binary sequences and seeded random agreement on "
                 "event matrices up to T=40, N=5"),
     level_note="trusts pvm/ref/events.py and numpy",
 )
+
+_SAMPLED = {"ES": 0, "ECA": 0}
 
 ES_SETTINGS = [(INF, 0.0), (1.0, 0.0), (2.0, 1.0)]
 ES_SETTINGS_IRR = [(INF, 0.0), (1.0, 0.5)]
@@ -86,6 +106,12 @@ ECA_NAMES = ["precursorXY", "triggerXY", "precursorYX", "triggerYX"]
 
 
 # ---------------------------------------------------------------------------
+def _want(ctx, cid):
+    """replay filter: events carry sub-case ids '<case>:<sub>'"""
+    oc = ctx.only_case
+    return oc is None or str(oc) == cid or str(oc).startswith(cid + ":")
+
+
 def _tscls(ts):
     return "ts=index" if ts is None else "ts=given"
 
@@ -170,10 +196,10 @@ def check_es(ctx, ES, x, y, ts, taumax, lag, cid, relations=False,
         # directed strengths and the total strength Q = Q(x|y)+Q(y|x)
         ctx.violation(f"event_synchronization:{opt}:out-of-range",
                       {**case, "lib": out, "ref": r}, cid)
-        return out
+        return out, r
     if r is None:
         ctx.count("es_undefined")
-        return out
+        return out, r
     ctx.count("es_defined")
     if r[0] + r[1] > 0:
         ctx.nontrivial(("ES", tuple(tx), tuple(ty), taumax, lag))
@@ -186,8 +212,13 @@ def check_es(ctx, ES, x, y, ts, taumax, lag, cid, relations=False,
         ctx.violation(f"event_synchronization:{opt}:differs",
                       {**case, "lib": out, "ref": r, "ref_plain": plain},
                       cid)
-        return out
+        return out, r
     ctx.maxstat("es_abs_err", max(abs(out[0] - r[0]), abs(out[1] - r[1])))
+    if _SAMPLED["ES"] < 2 and plain != r:
+        _SAMPLED["ES"] += 1
+        ctx.sample({"measure": "ES", "tx": tx, "ty": ty, "taumax": taumax,
+                    "lag": lag, "lib": out, "ref": r,
+                    "without_double_count_correction": plain})
     if exchange or relations:
         with warnings.catch_warnings():
             warnings.simplefilter("ignore")
@@ -241,7 +272,7 @@ def check_es(ctx, ES, x, y, ts, taumax, lag, cid, relations=False,
                               {**case, "factor": c, "lib": out,
                                "rescaled": o4 if ok else repr(o4)}, cid)
             ctx.count("rescale_checked")
-    return out
+    return out, r
 
 
 # ---------------------------------------------------------------------------
@@ -293,6 +324,10 @@ def check_eca(ctx, ES, x, y, ts, taumax, lag, cid, relations=False,
         ctx.violation(f"event_coincidence_analysis:{opt}:{kind}-differs",
                       {**case, "lib": out, "ref": r, "outputs": bad}, cid)
         return out
+    if _SAMPLED["ECA"] < 2 and len(tx) > 3 and 0 < r[0] < 1:
+        _SAMPLED["ECA"] += 1
+        ctx.sample({"measure": "ECA", "tx": tx, "ty": ty, "deltaT": taumax,
+                    "lag": lag, "lib": out, "ref": r})
     if exchange or relations:
         with warnings.catch_warnings():
             warnings.simplefilter("ignore")
@@ -355,21 +390,47 @@ SYM_RANGE = {"directed": (0, 1), "symmetric": (0, 1), "antisym": (-1, 1),
              "mean": (0, 1), "max": (0, 1), "min": (0, 1)}
 
 
-def check_matrix(ctx, ES, M, ts, taumax, lag, cid):
+def _lib_directed(A, Dref):
+    """library's directed values where the reference is defined"""
+    n = len(Dref)
+    return [[None if (i == j or Dref[i][j] is None or
+                      not np.isfinite(A[i, j])) else float(A[i, j])
+             for j in range(n)] for i in range(n)]
+
+
+def check_matrix(ctx, ES, M, ts, taumax, lag, cid, tm_s=None, lag_s=None):
+    """event_series_analysis of an EventSeries instance.
+
+    ES: every unordered pair is first evaluated with the static function
+    (checked against the reference in check_es, where a counting defect is
+    reported); the matrix must then contain exactly those pairwise library
+    values under each symmetrisation.  ECA: the instance has its own
+    counting code, so the 'directed' matrix of every window type is compared
+    with the reference; the other symmetrisations are compared with the
+    symmetrised *library* directed matrix (so that a counting defect and a
+    symmetrisation defect have different signatures)."""
     N = M.shape[1]
+    tm_s = taumax if tm_s is None else tm_s
+    lag_s = lag if lag_s is None else lag_s
     tsa = None if ts is None else np.asarray(ts, dtype=float)
     times = [_times(M[:, i], tsa) for i in range(N)]
     case = {"eventmatrix_T": M.T, "ts": ts, "taumax": taumax, "lag": lag}
-    ok, obj = ctx.call(ES, M, timestamps=tsa, taumax=taumax, lag=lag)
+    ok, obj = ctx.call(ES, M, timestamps=tsa, taumax=tm_s, lag=lag_s)
     if not ok:
         ctx.violation(f"EventSeries:{_tscls(ts)}:constructor-raises:"
                       f"{type(obj).__name__}", {**case, "exc": repr(obj)},
                       cid)
         return
     # ---- ES ---------------------------------------------------------
-    D = ref.directed_matrix(times,
-                            lambda a, b: ref.es(a, b, taumax, lag),
-                            second_is_larger_index=(lag != 0))
+    # the instance always passes (float) time stamps to the static function
+    tsi = np.arange(M.shape[0], dtype=float) if tsa is None else tsa
+    D = [[None] * N for _ in range(N)]
+    for i in range(N):
+        for j in range(i + 1, N):
+            res = check_es(ctx, ES, M[:, i], M[:, j], tsi, tm_s, lag_s,
+                           f"{cid}:es:{i}:{j}", relations=True)
+            if res is not None and res[1] is not None:
+                D[i][j], D[j][i] = float(res[0][0]), float(res[0][1])
     for sym in SYM_ES:
         with warnings.catch_warnings():
             warnings.simplefilter("ignore")
@@ -387,10 +448,11 @@ def check_matrix(ctx, ES, M, ts, taumax, lag, cid):
                           cid)
             continue
         S = ref.symmetrise(D, sym)
-        diff, oor = _cmp_matrix(A, S, 1e-9, *SYM_RANGE[sym])
+        diff, oor = _cmp_matrix(A, S, 1e-12, *SYM_RANGE[sym])
         if diff:
-            ctx.violation(f"{sig}:differs", {**case, "at": diff[:4],
-                                             "lib": A, "ref": S}, cid)
+            ctx.violation(f"{sig}:differs",
+                          {**case, "at": diff[:4], "lib": A,
+                           "pairwise_static_symmetrised": S}, cid)
         if oor:
             ctx.violation(f"{sig}:out-of-range", {**case, "at": oor[:4],
                                                   "lib": A}, cid)
@@ -400,9 +462,11 @@ def check_matrix(ctx, ES, M, ts, taumax, lag, cid):
     if taumax == INF:
         return
     empty = any(not t for t in times)
+    directed = {}
     for win in WINDOWS:
-        D = ref.directed_matrix(
+        Dref = ref.directed_matrix(
             times, lambda a, b: ref.eca_pair(a, b, taumax, lag, win))
+        Dlib = None
         for sym in SYM_ECA:
             with warnings.catch_warnings():
                 warnings.simplefilter("ignore")
@@ -422,30 +486,33 @@ def check_matrix(ctx, ES, M, ts, taumax, lag, cid):
                 ctx.violation(f"{sig}:bad-shape",
                               {**case, "shape": A.shape}, cid)
                 continue
-            S = ref.symmetrise(D, sym)
-            diff, oor = _cmp_matrix(A, S, 1e-6, 0, 1)
+            if sym == "directed":
+                S, tol, what = Dref, 1e-6, "ref"
+                Dlib = _lib_directed(A, Dref)
+                directed[win] = A
+            else:
+                if Dlib is None:
+                    continue
+                S, tol = ref.symmetrise(Dlib, sym), 1e-9
+                what = "library_directed_symmetrised"
+            diff, oor = _cmp_matrix(A, S, tol, 0, 1)
             if diff:
                 ctx.violation(f"{sig}:differs", {**case, "at": diff[:4],
-                                                 "lib": A, "ref": S}, cid)
+                                                 "lib": A, what: S}, cid)
             if oor:
                 ctx.violation(f"{sig}:out-of-range",
                               {**case, "at": oor[:4], "lib": A}, cid)
             if any(v is not None and v != 0 for row in S for v in row):
                 ctx.count("matrix_eca")
     # ---- instance windows == static function ---------------------------
-    if not empty and N >= 2:
+    if not empty and "advanced" in directed and "retarded" in directed:
+        adv, ret = directed["advanced"], directed["retarded"]
         with warnings.catch_warnings():
             warnings.simplefilter("ignore")
-            oka, adv = ctx.call(obj.event_series_analysis, method="ECA",
-                                symmetrization="directed",
-                                window_type="advanced")
-            okr, ret = ctx.call(obj.event_series_analysis, method="ECA",
-                                symmetrization="directed",
-                                window_type="retarded")
             oks, st = ctx.call(ES.event_coincidence_analysis, M[:, 0],
-                               M[:, 1], taumax, ts1=tsa, ts2=tsa, lag=lag)
-        ctx.evals(3)
-        if oka and okr and oks:
+                               M[:, 1], tm_s, ts1=tsa, ts2=tsa, lag=lag_s)
+        ctx.evals()
+        if oks:
             a = (adv[0, 1], ret[0, 1], adv[1, 0], ret[1, 0])
             if not _same_out(a, st, 1e-9):
                 ctx.violation("event_series_analysis:ECA:advanced/retarded"
@@ -473,7 +540,7 @@ def _arg_opt(exc, opt):
 def check_threshold(ctx, ES, k):
     r = ctx.rng("mem", k)
     cid = f"mem:{k}"
-    if not ctx.want(cid):
+    if not _want(ctx, cid):
         return
     N = int(r.integers(1, 6))
     T = int(r.integers(N + 2, 31))
@@ -580,6 +647,9 @@ def check_threshold(ctx, ES, k):
         col = None
         if A.shape == E.shape:
             col = int(np.argwhere(A != E)[0][1])
+            opt = (f"column:method={methods[col]}:value="
+                   f"{'none' if values[col] is None else 'given'}:type="
+                   f"{types[col] or 'none'}")
         ctx.violation(f"make_event_matrix:{opt}:differs",
                       {**case, "column": col, "ref_thresholds": thr,
                        "ref_types": typ, "lib_T": A.T, "ref_T": E.T}, cid)
@@ -603,13 +673,13 @@ def check_threshold(ctx, ES, k):
 # ---------------------------------------------------------------------------
 # climate network
 # ---------------------------------------------------------------------------
-def check_climnet(ctx, k):
+def check_climnet(ctx, ES, k):
     from pyunicorn.core import GeoGrid
     from pyunicorn.climate import ClimateData
     from pyunicorn.climate.eventseries_climatenetwork import \
         EventSeriesClimateNetwork as ESCN
     cid = f"cn:{k}"
-    if not ctx.want(cid):
+    if not _want(ctx, cid):
         return
     r = ctx.rng("cn", k)
     N = int(r.integers(2, 6))
@@ -625,7 +695,7 @@ def check_climnet(ctx, k):
     win = str(r.choice(WINDOWS))
     case = {"eventmatrix_T": M.T, "method": method, "taumax": taumax,
             "lag": lag, "symmetrization": sym, "window_type": win}
-    sig = f"EventSeriesClimateNetwork:{method}:{sym}"
+    sig = f"EventSeriesClimateNetwork:{method}"
 
     def build():
         g = GeoGrid(np.arange(float(T)), np.linspace(-40, 40, N),
@@ -645,23 +715,28 @@ def check_climnet(ctx, k):
         ctx.violation(f"{sig}:raises:{type(e).__name__}",
                       {**case, "exc": repr(e)}, cid)
         return
-    times = [_times(M[:, i], None) for i in range(N)]
-    if method == "ES":
-        D = ref.directed_matrix(times,
-                                lambda a, b: ref.es(a, b, taumax, lag),
-                                second_is_larger_index=(lag != 0))
-    else:
-        D = ref.directed_matrix(
-            times, lambda a, b: ref.eca_pair(a, b, taumax, lag, win))
-    R = ref.symmetrise(D, sym)
-    # ClimateNetwork stores |similarity| as float32 (its own convention)
-    R = [[None if v is None else abs(v) for v in row] for row in R]
-    diff, oor = _cmp_matrix(np.asarray(S, dtype=float), R, 1e-6,
-                            0, SYM_RANGE[sym][1])
-    if diff or oor:
+    # reference: the EventSeries instance with the same parameters (its
+    # matrix is verified in check_matrix); ClimateNetwork stores
+    # |similarity| as float32 (its own convention)
+    with warnings.catch_warnings():
+        warnings.simplefilter("ignore")
+        ok, R = ctx.call(lambda: ES(M.copy(), taumax=taumax, lag=lag)
+                         .event_series_analysis(method=method,
+                                                symmetrization=sym,
+                                                window_type=win))
+    if not ok:
+        ctx.count("climnet_reference_raises")
+        return
+    R = np.abs(np.asarray(R, dtype=float))
+    S = np.asarray(S, dtype=float)
+    same = S.shape == R.shape and bool(np.all(
+        (np.isnan(S) & np.isnan(R)) | (np.abs(S - R) <= 1e-6)))
+    if not same:
         ctx.violation(f"{sig}:similarity-differs",
-                      {**case, "at": (diff + oor)[:4], "lib": S, "ref": R},
+                      {**case, "lib": S, "abs_event_series_analysis": R},
                       cid)
+    if np.any(R > 0):
+        ctx.count("climnet_nonzero")
     if bool(net.directed) != (sym == "directed"):
         ctx.violation(f"{sig}:directed-flag", case, cid)
     ctx.count("climnet_compared")
@@ -741,7 +816,7 @@ def run(ctx):
                 if not ctx.mine(idx):
                     continue
                 cid = f"ex:{n}:{xc}:{yc}"
-                if not ctx.want(cid):
+                if not _want(ctx, cid):
                     continue
                 y = bits(yc, n)
                 exch = xc < yc
@@ -768,7 +843,7 @@ def run(ctx):
     for k in range(160 if ctx.thorough else 32):
         if ctx.mine(k):
             with ctx.guard(60):
-                check_climnet(ctx, k)
+                check_climnet(ctx, ES, k)
     # ---- B2. more random event matrices while time is left ----------------
     cap = 40000 if ctx.thorough else 4000
     k = bmin
@@ -780,7 +855,7 @@ def run(ctx):
 
 def random_case(ctx, ES, k):
     cid = f"mat:{k}"
-    if not ctx.want(cid):
+    if not _want(ctx, cid):
         return
     r = ctx.rng("mat", k)
     M = random_matrix(r)
@@ -793,18 +868,19 @@ def random_case(ctx, ES, k):
                   "bool": bool}[dt])
     as_int = r.random() < 0.3       # integer-valued parameters as ints
     with ctx.guard(60):
-        check_matrix(ctx, ES, M, ts, taumax, lag, cid)
         tsa = None if ts is None else np.asarray(ts)
         tm_s, lag_s = taumax, lag
         if as_int and lag.is_integer():
             lag_s = int(lag)
         if as_int and taumax != INF and taumax.is_integer():
             tm_s = int(taumax)
+        check_matrix(ctx, ES, M, ts, taumax, lag, cid, tm_s, lag_s)
         for i in range(N):
             for j in range(i + 1, N):
                 a, b = (i, j) if r.random() < 0.5 else (j, i)
-                check_es(ctx, ES, M[:, a], M[:, b], tsa, tm_s, lag_s,
-                         f"{cid}:es:{a}:{b}", relations=True)
+                if tsa is None:      # index time stamps (int16 path)
+                    check_es(ctx, ES, M[:, a], M[:, b], None, tm_s, lag_s,
+                             f"{cid}:es:{a}:{b}", relations=True)
                 if taumax != INF:
                     check_eca(ctx, ES, M[:, a], M[:, b], tsa, tm_s,
                               lag_s, f"{cid}:eca:{a}:{b}", relations=True)
